@@ -34,6 +34,14 @@ def run(ctx):
         fv = ctx.need("C16.F", path)
         if fv is not None:
             rule_flush_pairing(ctx, "C16.F", fv, who)
+    # "exactly one row per input record": between the batch and the file no row is dropped, doubled or re-sent — the
+    # batch's rows are collected in order and reach the sink once (a row buffer kept across flushes re-writes earlier rows)
+    d5_ = dep(ctx, "C16", "C05")
+    for path, who in BATCHERS:
+        fv = ctx.view(path)
+        if fv is not None:
+            rule_ordered_collects(d5_, "C05.O", fv, 2 if who == "compute_coverages" else 1)
+            rule_sink_sequential(d5_, "C05.O", fv, who)
     c10.window_rule(ctx, "C16.U")
     sentinel_rule(ctx)
     for path, normp in NORMALISERS:
